@@ -1,6 +1,6 @@
 (* C16/Properties.v — the property theorems of C16 and nothing else.
    "JID escaping is a lossless, chunk-independent transform." *)
-From XV Require Import lib.Bytes gen.Generated C16.Model C16.Proofs.
+From XV Require Import lib.Bytes gen.JidEscape C16.Model C16.Proofs.
 
 (* Escaping then unescaping any byte string returns it unchanged. *)
 Theorem C16_roundtrip : forall s : bytes, unescape_spec (escape_spec s) = s.
